@@ -8,7 +8,8 @@
    counter; in-place steps are addressed by label and applied to every tree of the world.
    [run_vop fixed d n o ops nx] runs one value-returning operation o (copy/deepcopy, the four
    splits with halos, flattenRanks, unflattenRanks, swapRanks, fiber+k, fiber*k, fiber+fiber,
-   fiber*fiber, Tensor.updateCoords, Tensor.updatePayloads) on the operand snapshots ops —
+   fiber*fiber, Tensor.updateCoords, Tensor.updatePayloads, root.copy(preserve_owner=False),
+   Tensor.fromFiber given another tensor's root or sub-fiber) on the operand snapshots ops —
    fiber level on unowned fibers (n = 0) or tensor level (n ranks) — and returns the operands
    as they are afterwards, the result, and the new counter.  fixed = true is the code with the
    proposed S17 fix (fiber-level unflattenRanks deep-copies first).
@@ -126,7 +127,8 @@ Qed.
 Print Assumptions C10_S16_unfixed_refuted.
 
 (* what the oracle evaluated on the implementation's observation means, for snapshots encoded
-   with a numbering r of identities: the disjointness test is exactly "no object in common",
+   with a numbering r of identities (the structure test also compares the rank lists and the
+   owner every fiber reports): the disjointness test is exactly "no object in common",
    the structure test implies equal identity-free trees (the coordinates and leaf values) *)
 Theorem C10_oracle_meaning : forall r a b,
   (disjoint_snaps (enc_snap r a) (enc_snap r b) = true ->
